@@ -106,7 +106,7 @@ def est_spec(name, draw, scale):
 
 @st.composite
 def datasets(draw, min_n=12, max_n=40, force_comp=None):
-    cloud = draw(gen.clouds(min_n=min_n, max_n=max_n, max_exp=3, min_exp=-1, ratios=[0.0, 0.0, 1.0, -10.0], aspects=(1.0, 1.0, 2.0)))
+    cloud = draw(gen.clouds(min_n=min_n, max_n=max_n, max_exp=3, min_exp=-1, ratios=[0.0, 0.0, 1.0, -10.0], aspects=(1.0, 1.0, 2.0), structures=gen.STRUCTURES))
     n = len(cloud["cells"])
     ncomp = force_comp or draw(st.sampled_from([1, 1, 2]))
     noise = [draw(st.lists(gen.finite(-1, 1), min_size=n, max_size=n)) for _ in range(ncomp)]
